@@ -1111,8 +1111,8 @@ def symbol_mismatch(info, sym):
         g = got.replace(" const", "").replace("const ", "").strip()
         if p.kind() == "scalar" and p.cxx_type in NATIVE_TEXT and g != p.cxx_type:
             return "parameter '%s' of the called overload %s is %s, declared %s" % (p.name, dem, got, p.cxx_type)
-        if p.kind() == "string" and (p.ref or p.nptr) and ("const" in got) != p.const:
-            # two overloads that differ in the const-ness of a std::string reference / pointer are different functions
+        if (p.ref or p.nptr) and "(" not in got and ("const" in got) != bool(p.const):
+            # two overloads that differ in the const-ness of what a reference / pointer parameter refers to are different functions
             return "parameter '%s' of the called overload %s is %s, the declaration says %sconst" % (p.name, dem, got, "" if p.const else "not ")
     return None
 
